@@ -209,7 +209,8 @@ class C06(PropertyCheck):
             "independent Python reference reader (4-aligned offsets, label = key, cells tile the data region); length grid; edge cases "
             "(empty archives, BOM-like first characters, repeated set_message); histories of set_message (with escape sequences) / delete_message "
             "/ re-add / set_title / lookups followed by serialize -> from_bytes, compared with Python's own ordered dict and with the model of "
-            "C07 pushed through the model of C06 (kind txth); the two game files re-serialized byte-exactly; "
+            "C07 pushed through the model of C06 (kind txth); conforming files of ANOTHER writer (Python: shuffled pointer/label tables, junk and "
+            "duplicated strings in the text section) parsed by from_bytes; the two game files re-serialized byte-exactly; "
             "from_archive on API-built well- and ill-formed archives; A-codec sweep of every scalar value / every lossless Shift-JIS "
             "code in first and inner position on the real library. Non-trivial = an archive with at least one message parsed back; "
             "distinct = distinct case line.")
@@ -300,6 +301,26 @@ class C06(PropertyCheck):
             p = os.path.join(TESTDIR, name)
             if os.path.exists(p):
                 cases.append(Case("txtf %s %s %s" % (f, e, B(open(p, "rb").read())), "game-files"))
+
+        # -- conforming files written by ANOTHER writer (Python): pointer / label tables shuffled, junk and duplicated strings in the
+        #    text section; from_bytes must read the same title and entries (C06_parse_any_conforming_file)
+        for _ in range(300 if quick else 5000):
+            f, e = rng.choice(combos)
+            alpha = alphabets(f)[rng.choice(list(alphabets(f)))]
+            title = rnd_sj(rng, SJ_ASCII, rng.randint(0, 7)) if f == "U" else b""
+            data = bytearray(txtfile.text_cell("S", title)) if f == "U" else bytearray()
+            labels, entries = [], []
+            for i in range(rng.choice([0, 1, 2, 3, rng.randint(0, 12)])):
+                k = rnd_key(rng, i, rng.choice(["id", "short"]))
+                m = rnd_msg(f, alpha, rng.choice([0, 1, 2, 3, 4, rng.randint(0, 20)]))
+                labels.append((len(data), k))
+                data += txtfile.text_cell(f, m)
+                entries.append((k, m))
+            image = txtfile.bin_write(e, data, labels=labels, rng=rng, shuffle_tables=rng.random() < 0.7, junk_text=rng.random() < 0.5,
+                                      dup_strings=rng.random() < 0.5)
+            c = Case("txtf %s %s %s" % (f, e, B(image)), "foreign-writer")
+            c.meta = {"expect": (title, entries)}
+            cases.append(c)
 
         # -- from_archive on API-built archives (reference writer; well- and ill-formed)
         n_arch = 800 if quick else 12000
@@ -439,6 +460,23 @@ class C06(PropertyCheck):
     def oracle_file(self, case, impl_out):
         t = case.line.split()
         fmt, endian, f = t[1], t[2], unB(t[3])
+        if case.stream == "foreign-writer":
+            exp = case.meta.get("expect") if case.meta else None
+            if exp is None:
+                return None                       # a replayed case carries no expectation
+            title, entries = exp
+            ents = " ".join("%s=%s" % (txtfile.DECODER.dec(k)[0], L(m) if fmt == "U" else txtfile.DECODER.dec(m)[0]) for (k, m) in entries)
+            want = "parse=ok d0 T=%s [%s]" % (txtfile.DECODER.dec(title)[0], ents)
+            head, reser = (impl_out.split(" | reser=", 1) + [""])[:2]
+            if head != want:
+                return "a conforming file of another writer: want %s got %s" % (want[:200], head[:200])
+            if not reser.startswith("ok:"):
+                return "re-serialization of a conforming file failed: " + reser[:80]
+            rt, res, problems = txtfile.text_read(fmt, endian, unB(reser[3:]))
+            if problems or rt != title or [(k, list(m) if fmt == "U" else bytes(m)) for (k, m) in res] != \
+                    [(k, list(m) if fmt == "U" else bytes(m)) for (k, m) in entries]:
+                return "the re-serialized image does not hold the file's entries: " + "; ".join(problems[:3])
+            return None
         if not impl_out.startswith("parse=ok "):
             return "a file of the repository does not parse: " + impl_out[:80]
         head, reser = impl_out.split(" | reser=", 1)
